@@ -8,6 +8,13 @@ Coq model (coq/Model/Graph.v + GraphExpr.v) runs on:
 
 Cell nodes live in column A of sheet "S" (row = order of creation); a range node
 is a contiguous block A{r1}:A{r2} of earlier cells.
+
+Optional second column (gen_workbook(..., colb=True), only for callers that ask for it; the
+single-column generation is unchanged): input cells S!B1..S!Bm (constants and trailing blanks, m = the
+sheet's last row), range nodes over blocks of column B, and the node of the whole-column reference
+S!B:B (kind 'ref': of range kind in the model, its single precedent is the bounded range node
+S!B1:Bm the implementation makes it stand for, its meaning is "the value of my precedent"), used by
+formulas in column A (=SUM(B:B), =MAX(B:B)+A3, =COUNT(B1:B5), =B2*A1, ...).
 """
 import os
 import re
@@ -22,12 +29,15 @@ OPS = [('+', 0), ('-', 1), ('*', 2), ('&', 5), ('=', 7), ('<>', 8), ('<', 9), ('
 AGGS = [('SUM', 0), ('MIN', 1), ('MAX', 2), ('COUNT', 3)]   # AVERAGE would leave the float-exact domain when nested
 
 
-def cell_addr(row):
-    return f'{SHEET}!A{row}'
+def cell_addr(row, col='A'):
+    return f'{SHEET}!{col}{row}'
 
 
-def range_addr(r1, r2):
-    return f'{SHEET}!A{r1}:A{r2}'
+def range_addr(r1, r2, col='A'):
+    return f'{SHEET}!{col}{r1}:{col}{r2}'
+
+
+COLB_REF = f'{SHEET}!B:B'
 
 
 class WB:
@@ -35,6 +45,10 @@ class WB:
         self.nodes = []
         self.rows = []          # node index of the cell in row r (1-based -> rows[r-1])
         self.ranges = {}        # (r1, r2) -> node index
+        self.brows = []         # second column: node index of the cell S!B{r} (rows[r-1] analogue)
+        self.branges = {}       # (r1, r2) -> node index of S!B{r1}:B{r2}
+        self.colref = None      # node index of S!B:B
+        self.pinned = set()     # input nodes that must stay non-blank (they fix the sheet's last row)
 
     # -- construction
     def add_input(self, value):
@@ -50,6 +64,30 @@ class WB:
             self.ranges[(r1, r2)] = len(self.nodes) - 1
         return self.ranges[(r1, r2)]
 
+    # -- second column
+    def add_input_b(self, value):
+        row = len(self.brows) + 1
+        self.nodes.append(dict(kind='input', deps=[], addr=cell_addr(row, 'B'), row=row, col=2, value=value,
+                               enc=[0]))
+        self.brows.append(len(self.nodes) - 1)
+        return len(self.nodes) - 1
+
+    def get_range_b(self, r1, r2):
+        if (r1, r2) not in self.branges:
+            deps = [self.brows[r - 1] for r in range(r1, r2 + 1)]
+            self.nodes.append(dict(kind='range', deps=deps, addr=range_addr(r1, r2, 'B'), r1=r1, r2=r2, col=2,
+                                   enc=[1, 1]))
+            self.branges[(r1, r2)] = len(self.nodes) - 1
+        return self.branges[(r1, r2)]
+
+    def get_colref(self):
+        """The node of S!B:B: a reference cell standing for the bounded range S!B1:B{last row}."""
+        if self.colref is None:
+            bounded = self.get_range_b(1, len(self.brows))
+            self.nodes.append(dict(kind='ref', deps=[bounded], addr=COLB_REF, col=2, enc=[6]))
+            self.colref = len(self.nodes) - 1
+        return self.colref
+
     def add_formula(self, text, deps, enc):
         row = len(self.rows) + 1
         self.nodes.append(dict(kind='formula', deps=deps, addr=cell_addr(row), row=row, text=text, enc=enc))
@@ -62,7 +100,7 @@ class WB:
         for i, n in enumerate(self.nodes):
             v0 = (inputs or {}).get(i, n.get('value')) if n['kind'] == 'input' else None
             st = (stored or {}).get(i) if n['kind'] == 'formula' else None
-            out.append([1 if n['kind'] == 'input' else 0, 1 if n['kind'] == 'range' else 0,
+            out.append([1 if n['kind'] == 'input' else 0, 1 if n['kind'] in ('range', 'ref') else 0,
                         list(n['deps']), enc_val(v0), enc_val(st), n['enc']])
         return out
 
@@ -76,7 +114,7 @@ class WB:
             if n['kind'] == 'input':
                 v = (inputs or {}).get(i, n['value'])
                 if v is not None:
-                    ws.cell(row=n['row'], column=1, value=v)
+                    ws.cell(row=n['row'], column=n.get('col', 1), value=v)
             elif n['kind'] == 'formula':
                 ws.cell(row=n['row'], column=1, value=n['text'])
         for (row, col), v in (extra or {}).items():
@@ -90,7 +128,7 @@ class WB:
         return None
 
     def cells(self):
-        return [i for i, n in enumerate(self.nodes) if n['kind'] != 'range']
+        return [i for i, n in enumerate(self.nodes) if n['kind'] in ('input', 'formula')]
 
     def formulas(self):
         return [i for i, n in enumerate(self.nodes) if n['kind'] == 'formula']
@@ -119,12 +157,58 @@ def operand_text(wb, rng, ref_rows, allow_lit=True):
     return f'"{s}"', None, [2] + [ord(c) for c in s]
 
 
-def gen_workbook(rng, ncells=8, pool=POOL, blank_results=False, p_formula=0.55):
+BPOOL = [1, 2, 3, 5, 8, -4, 10, 12, 7, 'text', 'b']    # constants of the second column
+
+
+def colb_formula(wb, rng, rows, force_ref=False):
+    """One formula cell of column A over the second column: an aggregate of the whole column B:B, of the
+    explicit range B1:B{last row} it stands for, or of a smaller block of column B - alone or followed by an
+    operator and a column-A operand -, or an operator formula over one cell of column B."""
+    m = len(wb.brows)
+    kind = 0.0 if force_ref else rng.random()
+    if kind < 0.75:
+        if kind < 0.40:
+            arg, dep = 'B:B', wb.get_colref()
+        elif kind < 0.60 or m < 3:
+            arg, dep = f'B1:B{m}', wb.get_range_b(1, m)
+        else:
+            r1 = rng.randrange(1, m)
+            r2 = rng.randrange(r1 + 1, m + 1)
+            if (r1, r2) == (1, m):
+                r2 -= 1
+            arg, dep = f'B{r1}:B{r2}', wb.get_range_b(r1, r2)
+        (name, w) = rng.choice(AGGS)
+        if rng.random() < 0.45:
+            (sym, code) = rng.choice(OPS)
+            tb, db, eb = operand_text(wb, rng, rows)
+            deps = [dep] + ([db] if eb == 'ref' else [])
+            return wb.add_formula(f'={name}({arg}){sym}{tb}', deps, [7, w, [0, 0], code, [0, 1] if eb == 'ref' else eb])
+        return wb.add_formula(f'={name}({arg})', [dep], [5, w, [0, 0]])
+    r = rng.randrange(1, m + 1)
+    (sym, code) = rng.choice(OPS)
+    tb, db, eb = operand_text(wb, rng, rows)
+    deps = [wb.brows[r - 1]] + ([db] if eb == 'ref' else [])
+    return wb.add_formula(f'=B{r}{sym}{tb}', deps, [3, code, [0, 0], [0, 1] if eb == 'ref' else eb])
+
+
+def gen_workbook(rng, ncells=8, pool=POOL, blank_results=False, p_formula=0.55, colb=False):
     wb = WB()
     n_inputs = max(2, int(ncells * (1 - p_formula)))
+    if colb:
+        # the second column: constants in B1..B{nb}, blank cells below down to the sheet's last row (the bounded
+        # range of B:B covers every row of the sheet); the cells that fix the last row are pinned
+        nb = rng.randrange(2, ncells + 3)
+        for r in range(1, max(nb, ncells) + 1):
+            wb.add_input_b(rng.choice(BPOOL) if r <= nb else None)
+        if nb >= ncells:
+            wb.pinned.add(wb.brows[-1])
     for k in range(ncells):
         rows = list(range(1, len(wb.rows) + 1))
-        if k < 2 or (rng.random() > p_formula and len(wb.inputs()) < n_inputs + 2):
+        if colb and k >= 2 and (rng.random() < 0.45 or (k == ncells - 1 and wb.colref is None)):
+            colb_formula(wb, rng, rows, force_ref=(k == ncells - 1 and wb.colref is None))
+            continue
+        if k < 2 or (rng.random() > p_formula and
+                     sum(1 for i in wb.rows if wb.nodes[i]['kind'] == 'input') < n_inputs + 2):
             wb.add_input(rng.choice(pool))
             continue
         kind = rng.random()
@@ -161,6 +245,8 @@ def gen_workbook(rng, ncells=8, pool=POOL, blank_results=False, p_formula=0.55):
             ri = wb.get_range(r1, r2)
             (name, w) = rng.choice(AGGS)
             wb.add_formula(f'={name}(A{r1}:A{r2})', [ri], [5, w, [0, 0]])
+    if colb and wb.nodes[wb.rows[-1]]['kind'] == 'input':
+        wb.pinned.add(wb.rows[-1])
     return wb
 
 
